@@ -24,8 +24,9 @@ TEMPLATES = {
             ["x{k} = p({k}, '{o}')  # a plain comment"],
             ["x{k} = p({k}, '{o}') or '>>> not a prompt'"],
             ["x{k} = p({k}, '{o}', ) or '# xdoctest: +SKIP in a string'"],
-            ["x{k} = p({k}, '{o}')   "]],                                  # trailing blanks are part of the line
-    'expr': [["v({k}, '{o}')"], ["(v({k}, '{o}'))"]],
+            ["x{k} = p({k}, '{o}')   "],                                   # trailing blanks are part of the line
+            ["x{k} = await ap({k}, '{o}')"]],                              # top-level await
+    'expr': [["v({k}, '{o}')"], ["(v({k}, '{o}'))"], ["await aw({k}, '{o}')"]],
     'semi': [["y{k} = 1; v({k}, '{o}')"]],
     'cmt': [["# just a comment {k}"], ["#comment{k}"]],
     'ml2': [["x{k} = p({k},", "       '{o}')"],
@@ -39,6 +40,7 @@ TEMPLATES = {
              ["x{k} = p({k}, '''{o}  ", "padded {k}    ", "end{k}''')"],                          # trailing blanks inside the string
              ['x{k} = p({k}, """{o}', "inner 'quoted' {k}", 'end{k}""")']],
     'cmp2': [["for _i{k} in [0]:", "    x{k} = p({k}, '{o}')"],
+             ["async with actx():", "    x{k} = await ap({k}, '{o}')"],
              ["if True:", "    x{k} = p({k}, '{o}')"],
              ["with ctx():", "    x{k} = p({k}, '{o}')"],
              ["class C{k}:", "    a = p({k}, '{o}')"]],
@@ -76,7 +78,7 @@ def template_for(block, rot):
         vs = [["p({k}, '{o}', 'q{k}')"], ["p({k}, '{o}', '')"]]          # two printed lines, the second possibly empty (<BLANKLINE>)
     if block.get('t') == 'ex':
         # the number of want lines of an example is fixed by the specification: no variant that prints a multi-line string
-        vs = [v for v in vs if not any("'''" in l or '"""' in l for l in v)] or vs
+        vs = [v for v in vs if not any("'''" in l or '"""' in l or 'await ' in l or 'async ' in l for l in v)] or vs
     d = block.get('dir', 'none')
     if d != 'none' and block['shape'] != 'cmt':
         at = 0 if d in ('first', 'neg', 'opt') else -1
